@@ -185,6 +185,10 @@ def run(chk):
     # ---- check_invalid_under_dagger on real function ASTs
     for name, src, flags, must in (("loop", "def f():\n    for i in xs:\n        g(i)\n", 2, True), ("while", "def f():\n    while c:\n        g()\n", 2, True),
                                    ("assignment", "def f():\n    x = g()\n", 2, True), ("nested-assignment", "def f():\n    if c:\n        x: int = 1\n", 2, True),
+                                   ("loop-inside-with-control-block", "def f():\n    with control(c):\n        for i in xs:\n            g(i)\n", 2, True),
+                                   ("while-inside-with-power-block", "def f():\n    with power(2):\n        while c:\n            g()\n", 7, True),
+                                   ("loop-inside-if", "def f():\n    if c:\n        for i in xs:\n            g(i)\n", 2, True),
+                                   ("assignment-inside-with-block", "def f():\n    with control(c):\n        x = g()\n", 2, True),
                                    ("plain-calls", "def f():\n    g(q)\n    h(q)\n", 2, False), ("loop-without-dagger", "def f():\n    for i in xs:\n        x = i\n", 5, False)):
         def t(it, src=src, flags=flags):
             m = e.module(MOD)
